@@ -25,7 +25,7 @@ TERMINALS = ('on_complete', 'on_next_complete', 'on_error')
 
 def plan(tier, seed):
     from . import c07
-    return [('cancel', 1500 if tier == 'quick' else 50000), ('script', len(c07.script_cases(tier)))]
+    return [('cancel', 5000 if tier == 'quick' else 60000), ('script', len(c07.script_cases(tier)))]
 
 
 def gen_case(rng, tier):
